@@ -1,4 +1,5 @@
 import IwModel.Lemmas.WalIdem
+import IwModel.Props.C05
 /-! # C04 — with WAL, a kill at any instant loses no synced work and tears no operation
 
 Theorems over the executable model `IwModel.Wal` of `src/kv/iwal.c`.  A checkpoint and the recovery at open
@@ -46,5 +47,41 @@ theorem replay_idempotent_twice (cfg : Cfg) (stop : Nat) (w m : Bytes) (j k : Na
   have h1 := replay_idempotent cfg stop w m j habs hok
   have hok1 : (replay cfg stop w (replayAux cfg stop j w 0 true m).main).rc = .ok := by rw [h1]; exact hok
   rw [replay_idempotent cfg stop w _ k habs hok1, h1]
+
+/-- **A kill during a regular checkpoint is repaired by the next open.**  A regular checkpoint (`_checkpoint_exl`
+with a savepoint) rolls forward a log `w` that ends with that savepoint record (position `f`).  Kill it after any
+number `j` of applied records: the log is still complete, the main file is `replayAux … j …`.  The recovery at the
+next open then leaves exactly the main file the undisturbed checkpoint would have written. -/
+theorem checkpoint_kill_recovers (cfg : Cfg) (w m : Bytes) (f j : Nat)
+    (hsep : w.headD 0 = WOP_SEP) (hclosed : C05.SegClosed w) (hnoreset : ∀ p, (p, Rec.reset) ∉ walk w)
+    (hlast : (f, Rec.savepoint) ∈ walk w) (hend : f + 12 = w.length)
+    (habs : AbsoluteOnly w) (hok : (replay cfg 0 w m).rc = .ok) :
+    recover cfg 1 w (replayAux cfg 0 j w 0 true m).main = (.ok, (replay cfg 0 w m).main, []) := by
+  have hf0 : f ≠ 0 := fun h => C05.no_savepoint_at_zero w hsep (h ▸ hlast)
+  have hns : ∀ q, (q, Rec.savepoint) ∈ walk w → q ≠ 0 := fun q hq h => C05.no_savepoint_at_zero w hsep (h ▸ hq)
+  -- the pre-scan of the complete log finds the final savepoint
+  have hcs := C05.prescan_cut_savepoint w w.length (Nat.le_refl _)
+  rw [List.take_length] at hcs
+  have hge := hcs.2 hsep hclosed f hlast (by omega)
+  have hfnd := hcs.1 (by omega)
+  have hf : (prescan w).1 = f := by omega
+  have hrp : (prescan w).2 = 0 := by
+    have := prescanAux_cut_noreset w.length w w.length 0 true 0 0 hnoreset
+    rw [List.take_length] at this; exact this
+  have hpair : prescan w = (f, 0) := Prod.ext hf hrp
+  have hne : w.isEmpty = false := by
+    cases w with
+    | nil => simp at hend
+    | cons a t => rfl
+  have hlastEq : ∀ x, replay cfg f w x = replay cfg 0 w x := fun x =>
+    replayAux_stop_last cfg f 0 w.length w 0 true x hlast (by omega) hns
+  have hidem := replay_idempotent cfg 0 w m j habs hok
+  unfold recover rollforward
+  simp only [hne, Bool.false_eq_true, if_false, hpair, hf0]
+  have h10 : (1:Nat) ≠ 0 := by decide
+  have hnb : ¬ ((0:Nat) > 0 ∧ (1:Nat) = 1) := by omega
+  simp only [h10, ne_eq, not_false_eq_true, if_true]
+  rw [hlastEq, hidem]
+  simp [hok]
 
 end IwModel.C04
